@@ -57,6 +57,17 @@ func heavier(a, b *chainx.B) bool {
 
 // History runs one schedule with commit points forced, then reopens every commit point.
 func History(r *vh.Run, name string, t *chainx.Tree, ids *c02.IDs, decls map[int]*c02.Decl, sched [][]int, kind string, rng *vh.RNG, armAll bool, maxReopen int) {
+	// about half of the batches that qualify go through AddValidatedV2Blocks, in the original run
+	// and again in every catch-up
+	via := make([]bool, len(sched))
+	for k := range via {
+		via[k] = rng.Bool()
+	}
+	HistoryVia(r, name, t, ids, decls, sched, via, kind, rng, armAll, maxReopen)
+}
+
+// HistoryVia is History with the ingestion path of every batch given (see c02.Rig.SubmitVia).
+func HistoryVia(r *vh.Run, name string, t *chainx.Tree, ids *c02.IDs, decls map[int]*c02.Decl, sched [][]int, via []bool, kind string, rng *vh.RNG, armAll bool, maxReopen int) {
 	dir, err := os.MkdirTemp("", "c03-*")
 	if err != nil {
 		panic(err)
@@ -152,7 +163,7 @@ func History(r *vh.Run, name string, t *chainx.Tree, ids *c02.IDs, decls map[int
 	for i, batch := range sched {
 		curBatch = i
 		opsBefore := rig.Applies + rig.Reverts
-		res := rig.Submit(batch)
+		res := rig.SubmitVia(batch, via[i])
 		if res == "panic" {
 			if len(c.Fails) == 0 {
 				c.Oracle("addblocks-panic", "AddBlocks panicked on batch %v: %s", batch, rig.PanicMsg)
@@ -203,7 +214,7 @@ func History(r *vh.Run, name string, t *chainx.Tree, ids *c02.IDs, decls map[int
 		if s.mid {
 			mids++
 		}
-		reopen(c, t, ids, decls, rig, s, kind, dir, sched, finalTip, finalState, finalID, tipsSeen)
+		reopen(c, t, ids, decls, rig, s, kind, dir, sched, via, finalTip, finalState, finalID, tipsSeen)
 	}
 	c.Nontrivial = mids > 0
 	if rig.Tainted {
@@ -228,7 +239,7 @@ func History(r *vh.Run, name string, t *chainx.Tree, ids *c02.IDs, decls map[int
 }
 
 func reopen(c *vh.Case, t *chainx.Tree, ids *c02.IDs, decls map[int]*c02.Decl, orig *c02.Rig, s *snapshot, kind, dir string,
-	sched [][]int, finalTip types.ChainIndex, finalState []byte, finalID int, tipsSeen map[string]bool) {
+	sched [][]int, via []bool, finalTip types.ChainIndex, finalState []byte, finalID int, tipsSeen map[string]bool) {
 	where := fmt.Sprintf("commit %d (batch %d, %d store ops, mid-reorg=%v, %s)", s.n, s.batch, s.ops, s.mid, s.tip)
 	if s.crash {
 		where = fmt.Sprintf("stop after %d store ops in batch %d, between commits (committed image found altered; last commit %d, %s)", s.ops, s.batch, s.n, s.tip)
@@ -328,7 +339,7 @@ func reopen(c *vh.Case, t *chainx.Tree, ids *c02.IDs, decls map[int]*c02.Decl, o
 	// catch-up, phase A: the remaining batches, from the interrupted one on, in their original order
 	// and batching
 	submit := func(i int) bool {
-		if res := rig2.Submit(sched[i]); res == "panic" {
+		if res := rig2.SubmitVia(sched[i], via[i]); res == "panic" {
 			c2.Oracle("catchup-panic", "%s: AddBlocks panicked while resubmitting batch %d: %s", where, i, rig2.PanicMsg)
 			return false
 		}
@@ -465,7 +476,9 @@ func DirectedFailingReorg(r *vh.Run, rng *vh.RNG, name string, maxReopen int) {
 	ids := c02.NewIDs()
 	decls := c02.Declare(t, ids)
 	for _, kind := range []string{"mem", "cache", "bolt"} {
-		History(r, name+"/"+kind, t, ids, decls, sched, kind, rng.Fork(), true, maxReopen)
+		// AddBlocks only: re-offering known blocks through it must trigger the reorg back (the
+		// pre-validated path re-stores and would mask a defect there)
+		HistoryVia(r, name+"/"+kind, t, ids, decls, sched, make([]bool, len(sched)), kind, rng.Fork(), true, maxReopen)
 	}
 }
 
@@ -506,6 +519,17 @@ func Run(r *vh.Run) {
 		drng := rng.Fork()
 		c02.Safely(r, fmt.Sprintf("failing-reorg%d", i), func() {
 			DirectedFailingReorg(r, drng, fmt.Sprintf("failing-reorg%d", i), maxReopen)
+		})
+	}
+	for i := 0; i < r.Pick(2, 20); i++ {
+		vrng := rng.Fork()
+		c02.Safely(r, fmt.Sprintf("side-then-prevalidated%d", i), func() {
+			t, sched, via := c02.SideThenValidatedShape(vrng)
+			ids := c02.NewIDs()
+			decls := c02.Declare(t, ids)
+			for _, kind := range []string{"mem", "bolt"} {
+				HistoryVia(r, fmt.Sprintf("side-then-prevalidated%d/%s", i, kind), t, ids, decls, sched, via, kind, vrng.Fork(), true, maxReopen)
+			}
 		})
 	}
 	r.Assume("the atom of durability is chain.DB.Flush: torn writes inside bbolt's commit, fsync and OS power-loss semantics are not modelled or exercised")
